@@ -46,6 +46,15 @@ CHECKS = {
             "Every layout shape of the single-game formats is concretised with random values and the game's query result compared field by "
             "field with the expectation computed from the spec's table.",
             "Trusted: TLC, harness generic layout interpreter."),
+    "C08": ("model_checking",
+            "Reassembly.tla (environment delivers fragments in any order, at most one duplicated) model-checked with TLC "
+            "(OrderIndependent, ErrorOnlyOnDup, NeverEarly, termination); every delivery schedule TLC enumerates is replayed",
+            "Every permutation of 2..4 (quick) / 2..5 (thorough) fragments and every single duplication at every later position, for Valve "
+            "Source and GoldSrc split packets, GameSpy 1 parts, GameSpy 3 packets and Unreal 2 multi-datagram lists, with random responses and "
+            "random fragment boundaries: the result must equal the spec's expected response and the in-order result of the same real code; a "
+            "duplicate may only yield an error or the same response.",
+            "Trusted: TLC, scripted transport. D1/D11: Unreal 2 lists are compared as multisets; duplicated Unreal 2 datagrams are not "
+            "checked (no sequence numbers exist to detect them)."),
     "C09": ("model_checking",
             "request templates in TLA+ (Templates.tla) + exchange specifications (ValveA2S.tla ...) model-checked with TLC "
             "(ChallengeEchoed, OnlySectionRequests); TLC behaviours replayed, every recorded send compared byte for byte",
